@@ -446,6 +446,11 @@ func Supervise(o Options) int {
 			emit(i, v)
 		}
 		fmt.Printf("  (%d violation(s) in %d distinct group(s))\n", len(fresh), len(seen))
+		if os.Getenv("VERIF_ALLVIOL") != "" { // developer aid: one line per violation
+			for _, v := range fresh {
+				fmt.Printf("  ALL oracle=%s class=%s disc=%s case=%d step=%d %s\n", v.Oracle, v.Class, v.Disc, v.Case, v.Step, firstN(strings.SplitN(v.Detail, "\n", 2)[0], 300))
+			}
+		}
 	}
 	units := len(total.Units)
 	if code == 0 {
